@@ -555,6 +555,36 @@ def fam_C03(rng, tier):
         for k in range(4 if tier == 'quick' else 30):
             variants.append((f'rand{k}', None, lambda d: sorted(rng.sample(range(1, len(d)), min(rng.choice([2, 5, 17]), len(d) - 1)))))
         group(f'c03-g{gi}', mk, variants)
+    # streams whose packet boundaries and read sizes fall exactly on the receive buffer's steps (512 / 1024 bytes):
+    # a read that fills the offered buffer exactly, with nothing (yet) behind it
+    def sized_publish(total, sid, qos=0, pid=None):
+        # total = 1 + len(varint) + 2 + 1 + (2 if qos) + 1 + 2 + payload  (topic 'a', one subscription identifier)
+        for z in range(0, total):
+            pk = m.publish(b'a', bytes([z % 251] * z), qos, pid, 0, 0, [(11, sid)])
+            if len(pk) == total:
+                return pk
+            if len(pk) > total:
+                break
+        raise ValueError(total)
+    gi = 0
+    for totals in [[512], [1024], [511], [513], [512, 512], [256, 256], [1536], [2048], [100, 412, 512], [512, 3, 509]]:
+        def mk(sid, totals=totals):
+            return [sized_publish(t, sid, j % 2, (j + 1) if j % 2 else None) if t >= 12 else m.pingresp() + b'' for j, t in enumerate(totals)]
+        tot = sum(len(x) for x in mk(1))
+        variants = [('whole', None, 'perpacket'), ('one', None, lambda d: None), ('fill', 'rd=fill', lambda d: None),
+                    ('at512', None, lambda d: [c for c in range(512, len(d), 512)]),
+                    ('at512fill', 'rd=fill', lambda d: [c for c in range(512, len(d), 512)]),
+                    ('at1024', None, lambda d: [c for c in range(1024, len(d), 1024)]),
+                    ('yield512', 'rdp=1', lambda d: [c for c in range(512, len(d), 512)]),
+                    ('off511', None, lambda d: [c for c in range(511, len(d), 512)]),
+                    ('off513', None, lambda d: [c for c in range(513, len(d), 512)])]
+        group(f'c03-exact{gi}', mk, variants)
+        gi += 1
+    # many small packets in one read that totals exactly 512 bytes
+    def burst(sid):
+        return [m.publish(b'a', b'', 0, None, 0, 0, [(11, sid)]) for _ in range(64)]      # 64 x 8 bytes
+    assert sum(len(x) for x in burst(1)) == 512
+    group('c03-burst512', burst, [('whole', None, 'perpacket'), ('one', None, lambda d: None), ('fill', 'rd=fill', lambda d: None)])
     # the CONNACK itself, chunked (connect phase)
     ck = m.connack(0, 0, [(33, 10), (38, (b'k', b'v'))])
     for i, c in enumerate(compositions(len(ck))):
